@@ -145,6 +145,14 @@ type Conn struct {
 	state    connState
 	closeRef uint32
 
+	// A header block the server has not finished sending: the stream it is on,
+	// the fragments so far, and whether its HEADERS frame carried END_STREAM.
+	// While blockStream is non-zero the only frame that may arrive is a
+	// CONTINUATION on that stream. They belong to the read loop.
+	blockStream    uint32
+	blockEndStream bool
+	block          []byte
+
 	// goAway is set once the server has told us not to open more streams.
 	goAway uint32
 
@@ -813,7 +821,23 @@ func (c *Conn) readLoop() {
 			c.addWindow(fr.Stream(), int32(fr.Body().(*WindowUpdate).Increment()))
 		}
 
-		stop := c.dispatch(fr)
+		// A header block is decoded as a whole: a CONTINUATION frame can begin
+		// in the middle of a field, so its fragment means nothing on its own.
+		block, endStream, complete, err := c.collectHeaderBlock(fr)
+		if err != nil {
+			c.setLastErr(err)
+			ReleaseFrameHeader(fr)
+
+			break
+		}
+
+		if !complete {
+			ReleaseFrameHeader(fr)
+
+			continue
+		}
+
+		stop := c.dispatch(fr, block, endStream)
 
 		ReleaseFrameHeader(fr)
 
@@ -823,19 +847,73 @@ func (c *Conn) readLoop() {
 	}
 }
 
+// collectHeaderBlock gathers the fragments of a header block. For a frame that
+// is not part of one it reports complete with a nil block. For HEADERS and
+// CONTINUATION frames it reports complete once END_HEADERS has arrived, with
+// the whole block and the END_STREAM flag of the HEADERS frame that opened it.
+// https://httpwg.org/specs/rfc7540.html#rfc.section.4.3
+func (c *Conn) collectHeaderBlock(fr *FrameHeader) (block []byte, endStream, complete bool, err error) {
+	switch {
+	case c.blockStream != 0:
+		if fr.Type() != FrameContinuation || fr.Stream() != c.blockStream {
+			return nil, false, false, NewGoAwayError(ProtocolError, "expected a CONTINUATION frame")
+		}
+
+		c.block = append(c.block, fr.Body().(FrameWithHeaders).Headers()...)
+	case fr.Type() == FrameContinuation:
+		return nil, false, false, NewGoAwayError(ProtocolError, "unexpected CONTINUATION frame")
+	case fr.Type() == FrameHeaders:
+		c.blockStream = fr.Stream()
+		c.blockEndStream = fr.Flags().Has(FlagEndStream)
+		c.block = append(c.block[:0], fr.Body().(FrameWithHeaders).Headers()...)
+	default:
+		return nil, false, true, nil
+	}
+
+	if !fr.Flags().Has(FlagEndHeaders) {
+		return nil, false, false, nil
+	}
+
+	c.blockStream = 0
+
+	// Never nil, which is how dispatch tells a header block from other frames.
+	return c.block[:len(c.block):len(c.block)], c.blockEndStream, true, nil
+}
+
 // dispatch hands a stream frame to the request waiting on it. It reports
 // whether the read loop should stop.
-func (c *Conn) dispatch(fr *FrameHeader) bool {
-	r, ok := c.loadReq(fr.Stream())
-	if !ok {
-		// Nobody waits on the stream any more (the caller canceled, and the
-		// server has not seen our RST_STREAM yet), but the server paid for this
-		// DATA out of the connection window all the same.
+//
+// block is the complete header block that fr finished, or nil when fr is not
+// the end of one, and endStream the END_STREAM flag that came with the block.
+func (c *Conn) dispatch(fr *FrameHeader, block []byte, endStream bool) bool {
+	if block == nil {
+		endStream = fr.Type() == FrameData && fr.Flags().Has(FlagEndStream)
+	}
+
+	// unowned deals with a frame nobody is waiting for: the caller canceled, and
+	// the server had not seen our RST_STREAM when it sent this. The frame still
+	// counts. The server paid for DATA out of the connection window, and a
+	// header block has changed the table its encoder goes by, so ours has to
+	// follow or every later response is decoded against the wrong entries.
+	unowned := func() bool {
 		if fr.Type() == FrameData {
 			c.consumeConnWindow(fr.Len())
 		}
 
+		if block != nil {
+			if err := c.readHeader(block, nil); isDecodingError(err) {
+				c.setLastErr(err)
+
+				return true
+			}
+		}
+
 		return false
+	}
+
+	r, ok := c.loadReq(fr.Stream())
+	if !ok {
+		return unowned()
 	}
 
 	// A canceled or finished request has taken its Response back, so there is
@@ -843,27 +921,34 @@ func (c *Conn) dispatch(fr *FrameHeader) bool {
 	if !r.acquireFor(c, fr.Stream()) {
 		c.dequeueReq(fr.Stream())
 
-		if fr.Type() == FrameData {
-			c.consumeConnWindow(fr.Len())
-		}
-
-		return false
+		return unowned()
 	}
 
 	// Released on the way out even if readStream panics: leaving the Ctx locked
 	// would wedge the RoundTrip that is waiting to take it back.
 	defer r.release()
 
-	err := c.readStream(fr, r.Response)
+	var err error
+
+	if block != nil {
+		err = c.readHeader(block, r.Response)
+	} else {
+		err = c.readStream(fr, r.Response)
+	}
+
 	if err == nil {
-		if fr.Flags().Has(FlagEndStream) {
+		if endStream {
 			c.finish(r, fr.Stream(), nil)
 		}
 	} else {
 		c.finish(r, fr.Stream(), err)
 	}
 
-	if err != nil && errors.Is(err, FlowControlError) {
+	// After a header block that could not be decoded the two HPACK tables no
+	// longer agree, and nothing that follows on the connection can be trusted.
+	if err != nil && (errors.Is(err, FlowControlError) || isDecodingError(err)) {
+		c.setLastErr(err)
+
 		return true
 	}
 
@@ -1469,9 +1554,6 @@ func (c *Conn) handlePing(ping *Ping) {
 
 func (c *Conn) readStream(fr *FrameHeader, res *fasthttp.Response) (err error) {
 	switch fr.Type() {
-	case FrameHeaders, FrameContinuation:
-		h := fr.Body().(FrameWithHeaders)
-		err = c.readHeader(h.Headers(), res)
 	case FrameResetStream:
 		// The server gave up on the stream. Without this the request would sit
 		// there until MaxResponseTime, or forever if that check is disabled.
@@ -1524,8 +1606,15 @@ func (c *Conn) updateWindow(streamID uint32, size int) {
 	c.writeOut(fr)
 }
 
+// readHeader decodes a complete header block into res. With a nil res the block
+// only goes through the decoder, for the sake of its dynamic table.
+//
+// A field that makes the response malformed does not end the decoding: the
+// fields after it may be ones the server's encoder has added to its table. The
+// first such error is returned once the block is done. A block that cannot be
+// decoded at all yields a decodingError, after which the connection is lost.
 func (c *Conn) readHeader(b []byte, res *fasthttp.Response) error {
-	var err error
+	var err, malformed error
 	hf := AcquireHeaderField()
 	defer ReleaseHeaderField(hf)
 
@@ -1536,51 +1625,74 @@ func (c *Conn) readHeader(b []byte, res *fasthttp.Response) error {
 	for len(b) > 0 {
 		b, err = dec.Next(hf, b)
 		if err != nil {
-			return err
+			return decodingError{err}
 		}
 
-		// A response carries exactly one pseudo-header, :status, and it must
-		// come before any regular field.
-		// https://httpwg.org/specs/rfc7540.html#rfc.section.8.1.2.4
-		if hf.IsPseudo() {
-			if regularSeen {
-				return errPseudoAfterRegular
-			}
-
-			if !bytes.Equal(hf.KeyBytes(), StringStatus) {
-				return fmt.Errorf("invalid response pseudo-header %q", hf.KeyBytes())
-			}
-
-			n, err := parseUint(hf.ValueBytes())
-			if err != nil || n < 100 || n > 999 {
-				return errInvalidStatus
-			}
-
-			res.SetStatusCode(n)
-
+		if res == nil || malformed != nil {
 			continue
 		}
 
-		regularSeen = true
+		malformed = c.readHeaderField(hf, res, &regularSeen)
+	}
 
-		if hasUpperCase(hf.KeyBytes()) {
-			return errUpperCaseHeader
+	return malformed
+}
+
+// decodingError is an HPACK error, as opposed to a well-encoded header block
+// that describes a malformed response.
+type decodingError struct{ err error }
+
+func (e decodingError) Error() string { return "decoding the header block: " + e.err.Error() }
+func (e decodingError) Unwrap() error { return e.err }
+
+func isDecodingError(err error) bool {
+	var de decodingError
+
+	return errors.As(err, &de)
+}
+
+func (c *Conn) readHeaderField(hf *HeaderField, res *fasthttp.Response, regularSeen *bool) error {
+	// A response carries exactly one pseudo-header, :status, and it must
+	// come before any regular field.
+	// https://httpwg.org/specs/rfc7540.html#rfc.section.8.1.2.4
+	if hf.IsPseudo() {
+		if *regularSeen {
+			return errPseudoAfterRegular
 		}
 
-		if isConnectionSpecific(hf.KeyBytes()) {
-			return errConnectionSpecific
+		if !bytes.Equal(hf.KeyBytes(), StringStatus) {
+			return fmt.Errorf("invalid response pseudo-header %q", hf.KeyBytes())
 		}
 
-		if bytes.Equal(hf.KeyBytes(), StringContentLength) {
-			n, err := parseUint(hf.ValueBytes())
-			if err != nil {
-				return errInvalidContentLength
-			}
-
-			res.Header.SetContentLength(n)
-		} else {
-			res.Header.AddBytesKV(hf.KeyBytes(), hf.ValueBytes())
+		n, err := parseUint(hf.ValueBytes())
+		if err != nil || n < 100 || n > 999 {
+			return errInvalidStatus
 		}
+
+		res.SetStatusCode(n)
+
+		return nil
+	}
+
+	*regularSeen = true
+
+	if hasUpperCase(hf.KeyBytes()) {
+		return errUpperCaseHeader
+	}
+
+	if isConnectionSpecific(hf.KeyBytes()) {
+		return errConnectionSpecific
+	}
+
+	if bytes.Equal(hf.KeyBytes(), StringContentLength) {
+		n, err := parseUint(hf.ValueBytes())
+		if err != nil {
+			return errInvalidContentLength
+		}
+
+		res.Header.SetContentLength(n)
+	} else {
+		res.Header.AddBytesKV(hf.KeyBytes(), hf.ValueBytes())
 	}
 
 	return nil
